@@ -35,7 +35,7 @@ def _work(args):
     return r
 
 
-def explore(cfg, options, pool, max_runs=None, seed=0, max_len=400):
+def explore(cfg, options, pool, max_runs=None, seed=0, max_len=60):
     """returns list of run dicts (each with .script = complete oracle script)"""
     rng = random.Random(seed)
     default = options[0]
@@ -59,10 +59,8 @@ def explore(cfg, options, pool, max_runs=None, seed=0, max_len=400):
         for (cfg_, prefix, _, _, _), r in zip(jobs, results):
             done.append(r)
             full = r['script'] or []
-            if len(full) > max_len:
-                continue
             if not truncated:
-                for j in range(len(prefix), len(full)):
+                for j in range(len(prefix), min(len(full), max_len)):
                     for alt in options[1:]:
                         nxt.append(full[:j] + [alt])
         pending = nxt
